@@ -47,3 +47,32 @@ Definition diag (maps : list (statemap * N)) (k : consts) (cs : case) : N :=
     end
   end.
 Definition diags_of maps k (cs : list case) : list N := map (diag maps k) cs.
+
+(* ---- liveness probe (C13): histories recorded after the harness waited the
+   hang bound with an idle consumer.  If the history itself is accepted and
+   all projections agree (diag = 0), the final model state must not have an
+   enabled readLoop step that only waits for room: a message decoded and held
+   by readLoop (RAdmit) whose admission guard holds (C13_backpressure_progress)
+   must have been admitted by then.  Code 8 = the implementation is stalled
+   where the specification can move. *)
+Definition reader_can_move sm r s0 rq k (s : st) : bool :=
+  match rph (rc s) with
+  | RAdmit _ _ => match step sm r s0 rq k s Admit with Some _ => true | None => false end
+  | _ => false
+  end.
+Definition diag_live (maps : list (statemap * N)) (k : consts) (cs : case) : N :=
+  match diag maps k cs with
+  | 0 =>
+    let '(i, srv, rq, ls, _) := cs in
+    match nth_error maps i with
+    | None => 9
+    | Some (sm, s0) =>
+      let r := if srv : bool then RServer else RClient in
+      match run_at sm r s0 rq k 0 (init sm r s0) ls with
+      | inl s => if reader_can_move sm r s0 rq k s then 8 else 0
+      | inr _ => 9
+      end
+    end
+  | d => d
+  end.
+Definition diags_live_of maps k (cs : list case) : list N := map (diag_live maps k) cs.
